@@ -32,8 +32,19 @@ package compiler
 //@   requires t != nil && tdwf(f)
 //@   decreases tree(t)
 //@   ensures result == und(f, t) && result != nil
+// A type that names an include the file does not have is not a valid type (rejection half of C11, the
+// one clause of it that is a per-call fact): isprim/iscont name the two keyword tables.
+//@ specfn isprim(Str) Bool
+//@ specfn iscont(Str) Bool
+//@ func parser.Type.IsPrimitive(t)
+//@   trusted
+//@   ensures result == isprim(t.Name)
+//@ func parser.Type.IsContainer(t)
+//@   trusted
+//@   ensures result == iscont(t.Name)
 //@ func parser.Frugal.isValidType(f, typ)
 //@   decreases tree(typ)
+//@   ensures !isprim(typ.Name) && !iscont(typ.Name) && inclname(typ.Name) != "" && !has(f.ParsedIncludes, inclname(typ.Name)) ==> !result
 // cyc(f, t, E): expanding t the way UnderlyingType and the emitters do (into container element types and
 // through typedefs, an included typedef in its declaring file) meets a typedef of the set E or one that is
 // met again further down. typedefCycle is verified to compute exactly this (one unfolding per use), with
